@@ -9,6 +9,7 @@ Case (JSON):
   "market": {SYM: [[iso_date, open|null, close|null, adj|null], ...]}}
 """
 import collections
+import contextlib
 import datetime as dtm
 import hashlib
 import json
@@ -139,6 +140,18 @@ def fnum(x):
 
 
 def run_session(case, data_dir=None, data_source=None, keep=False, universe=None):
+    """`_run_session` under the console-output switch the case asks for (`settings.PRINT_EVENTS`; off unless `loud`)"""
+    if not case.get('loud'):
+        return _run_session(case, data_dir, data_source, keep, universe)
+    settings.set_print_events(True)
+    try:
+        with open(os.devnull, 'w') as sink, contextlib.redirect_stdout(sink):
+            return _run_session(case, data_dir, data_source, keep, universe)
+    finally:
+        settings.set_print_events(False)
+
+
+def _run_session(case, data_dir=None, data_source=None, keep=False, universe=None):
     """Returns a JSON-able record of one real backtest. `data_source`: reuse an existing CSVDailyBarDataSource."""
     own_dir = None
     if data_source is None:
